@@ -180,6 +180,7 @@ class Ctx:
         self.pid, self.tier, self.seed, self.replay = pid, tier, seed, replay
         self.quick = tier == "quick"
         self.sdir = vbuild.scratch("xrlv.%s." % pid)
+        os.environ["VERIF_TMP"] = self.sdir      # every temporary file of workers and interpreters lives (and dies) with the run's scratch directory
         self.t0 = time.time()
         self.stats = Stats()
         self.rule = ""
